@@ -3,6 +3,7 @@ package sim
 import (
 	"bytes"
 	"fmt"
+	"sort"
 	"strconv"
 	"strings"
 
@@ -100,6 +101,7 @@ type nodeMon struct {
 	peerHeard            map[uint64]int // leader side: own tick at which a message from peer was last stepped
 	leaderSince          int            // own tick when leadership (term) began
 	leaderSinceStep      int
+	ledTerm              uint64 // highest term this incarnation acted as leader in
 	leaderTerm           uint64
 	lastTransferTick     int
 	lastConfTick         int
@@ -148,6 +150,9 @@ func (m *Monitors) init(s *Sim) {
 
 func (m *Monitors) viol(props []string, monitor, sig, format string, a ...any) {
 	msg := fmt.Sprintf(format, a...)
+	for _, p := range sortedKeys(m.s.Precursors) {
+		sig += "/after:" + p
+	}
 	if m.s.Exclude[sig] {
 		m.s.tracef("excluded known finding %s: %s", sig, msg)
 		panic(endCase{"excluded_known_finding"})
@@ -263,7 +268,32 @@ func (m *Monitors) onStart(n *Node, st *raft.VerifState) {
 	m.stateChecks(n, st, st, &Cause{Kind: "start"})
 }
 
-func (m *Monitors) onCrash(n *Node) {}
+// onCrash runs right before n's volatile state is discarded (after the
+// un-synced part of its storage was lost, if so drawn).
+func (m *Monitors) onCrash(n *Node) {
+	// A node that acted as leader of term T must have T in its durable hard
+	// state (fixed defect: with AsyncStorageWrites a candidate used to become
+	// leader on the votes of others before its own term and vote were
+	// written; after a crash it could lead the same term again).
+	if n.mon.ledTerm > 0 && n.Disk.HS.GetTerm() < n.mon.ledTerm {
+		m.viol([]string{"C02", "C05"}, "leader_term_durable", "c02.leader_term_not_durable",
+			"node %d led term %d but crashes with durable term %d: after the restart it may lead that term again", n.ID, n.mon.ledTerm, n.Disk.HS.GetTerm())
+	}
+}
+
+// knownPrecursor is called when the precondition of a known finding arises.
+// If the finding is excluded by construction the case ends here; otherwise
+// later violations carry the finding in their signature.
+func (m *Monitors) knownPrecursor(sig, msg string) {
+	m.s.tracef("precursor of known finding %s: %s", sig, msg)
+	if m.s.Exclude[sig] {
+		panic(endCase{"excluded_known_finding"})
+	}
+	if m.s.Precursors == nil {
+		m.s.Precursors = map[string]bool{}
+	}
+	m.s.Precursors[sig] = true
+}
 
 func (m *Monitors) onCompact(n *Node) {
 	// storage changed underneath raft; nothing to assert here, the next
@@ -428,9 +458,18 @@ func (m *Monitors) scanLog(n *Node, pre, post *raft.VerifState) {
 			m.observeEntry(n, post, idx, e, prevTerm, prevKnown, prevEnt)
 			// C04 oracle 2: a committed entry the node held must not be replaced.
 			if oldE != nil && oldE.GetTerm() != e.GetTerm() {
-				if cr := s.Reg.committed[idx]; cr != nil && cr.Term == oldE.GetTerm() {
+				// A committed entry the node held is replaced. That is a
+				// violation if the node knew it was committed, or if the
+				// replacing entry comes from a leader elected after the commit
+				// (such a leader must hold the entry). A stale leader of an
+				// earlier term may still overwrite the copy of a slow follower
+				// that never learnt of the commit: that copy was not needed
+				// for the commit's quorum (standard Raft).
+				if cr := s.Reg.committed[idx]; cr != nil && cr.Term == oldE.GetTerm() && (idx <= pre.Commit || e.GetTerm() >= cr.FirstCommitTerm) {
 					m.viol([]string{"C04", "C01"}, "no_overwrite_committed", "c04.committed_overwritten",
-						"node %d: committed entry (%d,%d) replaced by term %d", n.ID, idx, oldE.GetTerm(), e.GetTerm())
+						"node %d (commit %d): committed entry (%d,%d) (first committed in term %d) replaced by term %d", n.ID, pre.Commit, idx, oldE.GetTerm(), cr.FirstCommitTerm, e.GetTerm())
+				} else if cr != nil && cr.Term == oldE.GetTerm() {
+					s.Stats.inc("log.unknown_committed_copy_overwritten_by_stale_leader")
 				}
 			}
 		}
@@ -444,9 +483,9 @@ func (m *Monitors) scanLog(n *Node, pre, post *raft.VerifState) {
 				continue
 			}
 			oldE := old.logCache[idx-old.logBase]
-			if cr := s.Reg.committed[idx]; cr != nil && cr.Term == oldE.GetTerm() {
+			if cr := s.Reg.committed[idx]; cr != nil && cr.Term == oldE.GetTerm() && (idx <= pre.Commit || post.LastTerm >= cr.FirstCommitTerm) {
 				m.viol([]string{"C04", "C01"}, "no_truncate_committed", "c04.committed_truncated",
-					"node %d: committed entry (%d,%d) truncated (last index now %d)", n.ID, idx, oldE.GetTerm(), last)
+					"node %d (commit %d): committed entry (%d,%d) truncated (log now ends at (%d,%d))", n.ID, pre.Commit, idx, oldE.GetTerm(), last, post.LastTerm)
 			}
 		}
 	}
@@ -689,6 +728,7 @@ func (m *Monitors) stateChecks(n *Node, pre, post *raft.VerifState, c *Cause) {
 
 	// C02 oracle 1
 	if isLeader {
+		n.mon.ledTerm = post.Term
 		if m.On["C02"] {
 			cur := [2]uint64{n.ID, uint64(n.Inc)}
 			if prev, ok := m.leaderOf[post.Term]; ok && prev != cur {
@@ -748,6 +788,26 @@ func (m *Monitors) stateChecks(n *Node, pre, post *raft.VerifState, c *Cause) {
 	startedCampaign := (post.State == raft.StatePreCandidate || post.State == raft.StateCandidate) &&
 		(pre.State != post.State || pre.Term != post.Term) && c.Kind != "start"
 	if startedCampaign {
+		// Known finding raft.stale_config_campaign: the node durably holds
+		// >= 2 conf-change entries that are committed (by others) but lie
+		// beyond its own commit index - it lost or never had the commit
+		// index - so the hasUnappliedConfChanges guard cannot see them and it
+		// campaigns with a configuration two or more changes behind.
+		unknown := 0
+		for j := post.Applied + 1; j <= post.LastIndex; j++ {
+			if j <= post.Commit {
+				continue
+			}
+			if e := n.cachedEntry(j); e != nil && isConfEntry(e) {
+				if cr := reg.committed[j]; cr != nil && cr.Term == e.GetTerm() {
+					unknown++
+				}
+			}
+		}
+		if unknown >= 2 {
+			s.Stats.inc("finding.stale_config_campaign")
+			m.knownPrecursor("raft.stale_config_campaign", fmt.Sprintf("node %d campaigns (term %d) with config %s while its log holds %d committed conf changes beyond its commit index %d", n.ID, post.Term, confOfState(post), unknown, post.Commit))
+		}
 		s.Stats.inc("campaign.started")
 		if post.Commit > post.Applied {
 			s.Stats.inc("campaign.with_unapplied_entries")
@@ -1907,4 +1967,13 @@ func (m *Monitors) c17VoteRequest(n *Node, pre, post *raft.VerifState, req *pb.M
 			"node %d follows leader %d (heard %d ticks ago, election timeout %d) yet %s from %d: term %d -> %d, granted=%v",
 			n.ID, pre.Lead, n.Ticks-n.mon.heardTick, n.Opts.ElectionTick, req.GetType(), req.GetFrom(), pre.Term, post.Term, granted)
 	}
+}
+
+func sortedKeys(m map[string]bool) []string {
+	var out []string
+	for k := range m {
+		out = append(out, k)
+	}
+	sort.Strings(out)
+	return out
 }
